@@ -24,6 +24,7 @@ func init() {
 			"I4 the per-fork invocation is produced from this fork's resolved inputs (resolveInputs(self.forkId, …) feeds BuildCallSource, whose result is what is written to the invocation file), " +
 			"I5 the expected type is walked with the value: stores that unwrap TypeId.MapDim are dominated by a type-switch arm for a map-kind value and stores that decrement ArrayDim by an arm for an array-kind value, in the function or at every call (calls passing the opposite constant for a guarding boolean parameter exempt). " +
 			"I6 every binary search over a slice is dominated by a sort of the same slice. " +
+			"I7 the include recorded by BuildDataForAst does not depend on SourceFile.IncludedFrom. " +
 			"NOT decided: equality of values after a round trip (struct/map decisions, float printing, string escapes - the latter are C09's), that the recorded invocation compiles.",
 		Assumptions: commonAssumptions,
 	}
@@ -33,6 +34,7 @@ func runC16(c *an.Ctx) {
 	p := c.P
 	ruleI5(c)
 	ruleI6(c)
+	ruleI7(c)
 	corePath := an.ModPath + pkgCore
 	synPath := an.ModPath + pkgSyntax
 	entryNames := []string{"BuildCallAst", "convertToExp", "BuildDataForAst", "(*InvocationData).BuildCallAst", "(*Fork).writeInvocation", "fixExpressionTypes", "InvocationDataFromSource"}
